@@ -78,9 +78,7 @@ def build_chain(seq, phis, psis, chis=None, omegas=None, hydrogens="none", oxt=T
             tat.pop("HE2", None)
         if rn in ("HIE", "HSE"):
             tat.pop("HD1", None)
-        if rn == "HIS":
-            tat.pop("HD1", None)
-            tat.pop("HE2", None)
+        # a plain HIS written with hydrogens carries both ring protons (template form)
         if rn == "ASH":
             tat.pop("HD1", None)
         if rn == "GLH":
